@@ -69,7 +69,7 @@ VEC_OPS = ["v_get", "v_set", "v_front", "v_back", "v_push", "v_pop", "v_insert",
            "v_size", "v_empty", "v_assign", "v_copy_mut", "v_cap"]
 MAP_OPS = ["m_get", "m_at", "m_set", "m_count", "m_erase", "m_size", "m_clear", "m_insert", "m_empty"]
 STR_OPS = ["s_get", "s_size", "s_clear", "s_append", "s_append_c", "s_push", "s_substr", "s_find", "s_insert", "s_erase", "s_empty", "s_assign", "s_set"]
-RNG_OPS = ["r_new", "r_new_s", "r_new_retro", "r_front", "r_back", "r_pop_front", "r_pop_back", "r_empty", "r_new_m"]
+RNG_OPS = ["r_new", "r_new_s", "r_new_retro", "r_front", "r_back", "r_pop_front", "r_pop_back", "r_empty", "r_new_m", "r_tmp"]
 PAIR_OPS = ["p_new", "p_first", "p_second"]
 CONST_OPS = ["cv_get", "cs_get", "lit_get", "cv_front", "cs_substr", "cv_range"]
 
@@ -141,9 +141,8 @@ def plan(st_, M):
         return "v[%s]" % lit_int(i), (r_elem(v[i]) if 0 <= i < n else RAISE)
     if op == "v_set":
         if 0 <= i < n:
-            if v[i] is None:
-                return None   # assigning into an undefined slot is outside the modelled operations
-            v[i] = x
+            v[i] = x          # also into a slot that resize(n) created without a value: the slots are distinct objects, as in std::vector
+
             return "v[%s] = %s" % (lit_int(i), lit_int(x)), "i32:%d" % x
         return "v[%s] = %s" % (lit_int(i), lit_int(x)), RAISE
     if op == "v_front":
@@ -357,6 +356,19 @@ def plan(st_, M):
         M.uid += 1
         M.rname = "r%d" % M.uid
         return "var %s = range(m); 0" % M.rname, "i32:0"
+    if op == "r_tmp":
+        # a view over a *temporary* container keeps that container alive, and so does every copy of the view (after the first view is gone)
+        a, b, c = lit_int(x), lit_int(x + 1), lit_int(x + 2)
+        form = (x + len(st_["t"])) % 5
+        if form == 0:
+            return "fun() { var c2 = fun() { var r = range([%s, %s, %s]); var c = r; c }(); c2.pop_front(); [c2.front(), c2.back()] }()" % (a, b, c), "[i32:%d, i32:%d]" % (x + 1, x + 2)
+        if form == 1:
+            return "fun() { var c2 = retro(range([%s, %s, %s])); c2.pop_front(); [c2.front(), c2.back()] }()" % (a, b, c), "[i32:%d, i32:%d]" % (x + 1, x)
+        if form == 2:
+            return "fun() { var c2 = fun() { var r = range(\"ab\" + \"cd\"); var c = r; c }(); c2.pop_back(); [c2.front(), c2.back()] }()", "[char:97, char:99]"
+        if form == 3:
+            return "fun() { var keep = []; { var r = range([%s, %s, %s]); var c = r; keep.push_back(c) }; keep[0].pop_back(); [keep[0].front(), keep[0].back()] }()" % (a, b, c), "[i32:%d, i32:%d]" % (x, x + 1)
+        return "fun() { var c2 = fun() { var r = range([\"a\": %s, \"b\": %s]); var c = r; c }(); c2.pop_front(); c2.front().second }()" % (a, b), "i32:%d" % (x + 1)
     if op.startswith("r_"):
         if M.r is None:
             return None
